@@ -25,6 +25,8 @@ LEVEL_TEXT = ("Bounded relational contract on the real Pipeline.map / map_async:
               "StorageBase.dump is an assumed contract with a ghost dump log). Category 'other' = those contracts + "
               "bounded relational checking; it is not a proof of C03.")
 LEVEL_TEXT += (" Also proved: RunInfo.storage_class (which backend an output is stored in: one for all outputs, else the output's own entry, else the default entry ''; ValueError exactly when neither exists).")
+LEVEL_TEXT += (" Also bounded: a run in two steps (one fixed_indices piece, then the completing full run on the same folder) "
+               "returns, stores and invokes the same under 7 configurations incl. map_async.")
 LEVEL_NOTE = ("Schedules are sampled (reverse/random completion per generation through rtc/executors.ShuffleExecutor, "
               "real pools), not enumerated. Trusted: concurrent.futures / asyncio, the reference denotation.")
 TECHNIQUE = ("bounded relational contract checking across executor/storage/schedule configurations; leaf "
@@ -33,6 +35,9 @@ TECHNIQUE += ('; RunInfo.storage_class discharged by z3')
 EXPLANATION = LEVEL_TEXT
 RULE = ("programs of rtc.progs.gen_map_program with >=2 mapped elements x configurations listed in the level text; "
         "distinct = distinct (program, configuration); non-trivial = a generation with >=2 tasks")
+RULE_PIECES = ("programs of rtc.progs.gen_map_program x one piece (fixed_indices on an input-driven, unreduced axis) then the "
+               "completing full run on the same run folder, under 7 configurations (sequential / threads / shuffled "
+               "completion / async x dict / file_array / shared_memory_dict); distinct = distinct (program, axis, piece)")
 TRUSTED_BASE = ["reference denotation rtc/progs.py", "concurrent.futures, asyncio"]
 ASSUMPTIONS = ["user functions deterministic", "completion orders are sampled, not enumerated"]
 
@@ -224,6 +229,110 @@ def _check(case):
         shutil.rmtree(folder, ignore_errors=True)
 
 
+PIECE_CONFIGS = ["seq/file_array", "seq/dict", "thread/dict", "shuffle-random/shared_memory_dict", "async-thread/dict",
+                 "async-shuffle-reverse/file_array", "async-seq/dict"]
+
+
+def _pieces_cases(tier, rng):
+    """A run in two steps - one piece of an axis (fixed_indices), then the completing full run on the same folder -
+    under every configuration: what a piece computes and stores is as independent of the configuration as a whole run."""
+    from props.C06 import array_axes, random_partition, reduced_axes, unnamed_somewhere
+    want, tries = (24 if tier == "quick" else 240), 0
+    while want and tries < 20000:
+        tries += 1
+        prog = progs.gen_map_program(rng, n_funcs=rng.randint(1, 3), allow_generator=False, allow_internal=(tries % 3 == 0))
+        if unnamed_somewhere(prog):
+            continue
+        root = set(prog["inputs"])
+        axes = sorted({a for n, ax_ in array_axes(prog).items() if n in root for a in ax_ if a is not None}
+                      - reduced_axes(prog))
+        axes = [a for a in axes if prog["sizes"][a] >= 2]
+        if not axes:
+            continue
+        ax = rng.choice(axes)
+        parts = random_partition(rng, prog["sizes"][ax])
+        want -= 1
+        yield {"prog": prog, "axis": ax, "part": parts[-1], "seed": rng.randrange(10**6)}
+
+
+def _run_one(p, prog, cfg, seed, run_folder, **kw):
+    is_async = cfg.startswith("async-")
+    ek, storage = (cfg[6:] if is_async else cfg).split("/")
+    ex = None if ek == "seq" else _mk_executor(ek, seed)
+    try:
+        more = {"executor": ex} if ex is not None else {}
+        if is_async:
+            async def go():
+                am = p.map_async(progs.real_inputs(prog), run_folder=run_folder, storage=storage, **more, **kw,
+                                 **progs.map_kwargs(prog))
+                return await am.task
+            return asyncio.run(go())
+        return p.map(progs.real_inputs(prog), run_folder=run_folder, parallel=ex is not None, storage=storage, **more,
+                     **kw, **progs.map_kwargs(prog))
+    finally:
+        if ex is not None:
+            ex.shutdown(wait=True)
+
+
+def _read_log(logfile):
+    out = []
+    if os.path.exists(logfile):
+        for line in open(logfile):
+            _, fname, tag = line.rstrip("\n").split("\t", 2)
+            out.append((fname, tag))
+    return sorted(out)
+
+
+def _pieces_check(case):
+    from pipefunc.map import load_outputs
+    prog, ax, part, seed = case["prog"], case["axis"], case["part"], case["seed"]
+    want, calls = progs.denote(prog)
+    outs = [o for f in prog["funcs"] for o in f["outputs"]]
+    bad, seen = [], {}
+    for cfg in PIECE_CONFIGS:
+        folder = tempfile.mkdtemp(prefix="vf_c03p_")
+        logfile = os.path.join(folder, "_calls.log")
+        run_folder = os.path.join(folder, "run")
+        try:
+            progs.set_log(None, logfile)
+            p = progs.build_pipeline(prog)
+            try:
+                r1 = _run_one(p, prog, cfg, seed, run_folder, fixed_indices={ax: part}, cleanup=True)
+                calls1 = _read_log(logfile)
+                piece = {o: repr(progs.to_nested(r1[o].output)) for o in outs}
+                r2 = _run_one(p, prog, cfg, seed, run_folder, cleanup=False)
+            except Exception as e:  # noqa: BLE001
+                bad.append(f"{cfg}: piece {ax}={part!r} then the full run raised {type(e).__name__}: {str(e)[:150]}")
+                continue
+            total = _read_log(logfile)
+            for o in outs:
+                got = progs.to_nested(r2[o].output)
+                if got != want[o]:
+                    bad.append(f"{cfg}: after piece {ax}={part!r} the completing run returns {o} = {str(got)[:140]}, want {str(want[o])[:140]}")
+                st = progs.to_nested(load_outputs(o, run_folder=run_folder))
+                if st != want[o]:
+                    bad.append(f"{cfg}: after piece {ax}={part!r} and completion the stored {o} = {str(st)[:140]}, want {str(want[o])[:140]}")
+            if total != sorted(calls):
+                bad.append(f"{cfg}: piece {ax}={part!r} then completion: {len(total)} calls over the history, one per index is {len(calls)}")
+            seen[cfg] = (calls1, piece)
+        finally:
+            progs.set_log(None, None)
+            shutil.rmtree(folder, ignore_errors=True)
+    ref = PIECE_CONFIGS[0]
+    for cfg, (calls1, piece) in seen.items():
+        if ref in seen and cfg != ref:
+            if calls1 != seen[ref][0]:
+                bad.append(f"the piece {ax}={part!r} invokes {len(calls1)} elements under {cfg} and {len(seen[ref][0])} under {ref}")
+            if piece != seen[ref][1]:
+                d = [o for o in outs if piece[o] != seen[ref][1][o]][0]
+                bad.append(f"the piece {ax}={part!r} returns {d} = {piece[d][:120]} under {cfg} and {seen[ref][1][d][:120]} under {ref}")
+    return bad
+
+
+def _pieces_describe(case):
+    return {"program": progs.describe(case["prog"]), "axis": case["axis"], "part": repr(case["part"]), "seed": case["seed"]}
+
+
 def _describe(case):
     return {"program": progs.describe(case["prog"]), "cfg": case["cfg"], "seed": case["seed"]}
 
@@ -231,4 +340,7 @@ def _describe(case):
 def bounded_checks():
     return [("config-independence", Check("config-independence", _cases, _check, RULE, describe=_describe,
                                           key=lambda c: repr(_describe(c)), shards=14,
-                                          time_budget_s=lambda t: 100 if t == "quick" else 1200))]
+                                          time_budget_s=lambda t: 100 if t == "quick" else 1200)),
+            ("pieces-config-independence", Check("pieces-config-independence", _pieces_cases, _pieces_check, RULE_PIECES,
+                                                 describe=_pieces_describe, key=lambda c: repr(_pieces_describe(c)),
+                                                 shards=8, time_budget_s=lambda t: 80 if t == "quick" else 900))]
